@@ -328,7 +328,9 @@ func Check(t *testing.T, test string, n int, prop func(*rapid.T)) {
 		st.mu.Unlock()
 		if fr != nil {
 			Violation(test, fr.Case, fr.Msg)
-		} else {
+		} else if os.Getenv("VERIF_RACE") == "" {
+			// (in a -race build the testing package fails the test when the
+			// detector reported a race; the driver reads those reports itself)
 			Violation(test, nil, "rapid property failed without a recorded case (panic inside the property?) — see log")
 		}
 	})
